@@ -253,6 +253,8 @@ Definition tcp_gro (bufs : list buf) (offset pktI : N) (t : table) (v6 : bool) :
   | Some iph =>
       let tcph := (byte_at pkt (iph + 12) / 16) * 4 in
       if (tcph <? 20) || (60 <? tcph) then (Noop, bufs, t)
+      (* if pkt[iphLen+12]&0x0f != 0: reserved bits or the NS/AE flag set (fix of gro-tcp-ns-flag-lost-in-merge) *)
+      else if negb (byte_at pkt (iph + 12) mod 16 =? 0) then (Noop, bufs, t)
       else if len pkt <? iph + tcph then (Noop, bufs, t)
       else if negb (frag_gate pkt v6) then (Noop, bufs, t)
       else
